@@ -48,7 +48,9 @@ class Job:
         self.klass = klass            # 'proved' (unbounded) | 'bounded'
         self.bound = bound            # text describing the bound when klass == 'bounded'
         self.solver = solver
-        self.timeout = timeout
+        # a floor under every job's time limit: the limits in props/ were measured on an idle 16-core machine; a loaded one must not turn
+        # a passing job into UNDECIDED (MV_TIMEOUT, where a module honours it, and MV_MIN_TIMEOUT=0 override this)
+        self.timeout = max(timeout, int(os.environ.get('MV_MIN_TIMEOUT', '2400')))
         self.mem_gb = mem_gb
         self.functions = list(functions)   # [(file, function)] under contract in this job
         self.replay = replay          # callable(job, failed, workdir) -> dict | None
